@@ -201,8 +201,10 @@ func init() {
 								obs = append(obs, mkOb(c, "TIME.no-struct-compare", u, ord.next("switch on time.Time"), x, Violated, "switch on a time.Time compares structs, not instants", true))
 							}
 						}
-					case *ast.CallExpr:
-						if fn := Callee(info, x); fn != nil && fn.Pkg() != nil && fn.Pkg().Path() == "time" {
+					case *ast.SelectorExpr:
+						// a call a.Before(b), and equally the method expression time.Time.Before handed to a
+						// shared comparison body
+						if fn, ok := info.Uses[x.Sel].(*types.Func); ok && fn.Pkg() != nil && fn.Pkg().Path() == "time" {
 							if sig, ok := fn.Type().(*types.Signature); ok && sig.Recv() != nil && isTimeTime(sig.Recv().Type()) {
 								switch fn.Name() {
 								case "Equal", "Before", "After", "Compare":
@@ -319,11 +321,92 @@ func init() {
 					}
 				}
 				if nres == 0 {
+					// the comparison may be handed, as a method expression, to a body shared by the three
+					// predicates: `return compareTimes(env, args, time.Time.Before)` with
+					// `lisp.Bool(holds(t1, t2))` inside — holds(a, b) is a.Before(b)
+					if o, ok := timeOrderViaMethodExpr(c, u, ps[1], sp.what, sp.ok); ok {
+						obs = append(obs, o)
+						continue
+					}
 					obs = append(obs, mkOb(c, "TIME.order-mirror", u, sp.what, fd, Undecided, "no result built from the two time operands found", true))
 				}
 			}
 			return obs
 		}})
+}
+
+// timeOrderViaMethodExpr: u returns H(…, args, …, time.Time.M, …) and H returns a value built directly from
+// f(x, y) with f the parameter that received the method expression and x, y time operands traced to the
+// argument cells: the predicate is operand(x).M(operand(y)).
+func timeOrderViaMethodExpr(c *Ctx, u FuncUnit, argsP types.Object, what string, okf func(method string, recv, arg int) bool) (Obligation, bool) {
+	info := u.Pkg.TypesInfo
+	for _, rs := range returnsOf(u.Decl.Body) {
+		if len(rs.Results) != 1 {
+			continue
+		}
+		ce, ok := ast.Unparen(rs.Results[0]).(*ast.CallExpr)
+		if !ok {
+			continue
+		}
+		h := originOf(Callee(info, ce))
+		if h == nil || h.Pkg() != u.Obj.Pkg() {
+			continue
+		}
+		hd := c.declOf[h]
+		if hd == nil || hd.Body == nil {
+			continue
+		}
+		hu := FuncUnit{h, hd, c.pkgOf[hd]}
+		hps := paramObjs(hu)
+		var hArgs, hFn types.Object
+		method := ""
+		for i, a := range ce.Args {
+			if i >= len(hps) {
+				continue
+			}
+			if identObj(info, a) == argsP {
+				hArgs = hps[i]
+			}
+			if se, ok := ast.Unparen(a).(*ast.SelectorExpr); ok {
+				if mf, ok := info.Uses[se.Sel].(*types.Func); ok && mf.Pkg() != nil && mf.Pkg().Path() == "time" {
+					if sig, ok := mf.Type().(*types.Signature); ok && sig.Recv() != nil && isTimeTime(sig.Recv().Type()) {
+						// a method EXPRESSION: the selector's operand is the type
+						if tv, ok := info.Types[se.X]; ok && tv.IsType() {
+							hFn, method = hps[i], mf.Name()
+						}
+					}
+				}
+			}
+		}
+		if hArgs == nil || hFn == nil {
+			continue
+		}
+		hinfo := hu.Pkg.TypesInfo
+		idx := timeOperandIndex(c, hu, hArgs)
+		for _, hr := range returnsOf(hd.Body) {
+			if len(hr.Results) != 1 {
+				continue
+			}
+			outer, ok := ast.Unparen(hr.Results[0]).(*ast.CallExpr)
+			if !ok || len(outer.Args) != 1 {
+				continue
+			}
+			inner, ok := ast.Unparen(outer.Args[0]).(*ast.CallExpr)
+			if !ok || identObj(hinfo, inner.Fun) != hFn || len(inner.Args) != 2 {
+				continue
+			}
+			ri, rok := idx[identObj(hinfo, inner.Args[0])]
+			ai, aok := idx[identObj(hinfo, inner.Args[1])]
+			if !rok || !aok {
+				return mkOb(c, "TIME.order-mirror", u, what+" result#1", hr, Undecided, "cannot trace the operands of `"+types.ExprString(inner)+"` in "+hu.Name()+" back to args.Cells[0]/[1]", true), true
+			}
+			if okf(method, ri, ai) {
+				return mkOb(c, "TIME.order-mirror", u, what+" result#1", hr, Proved, fmt.Sprintf("%s = operand%d.%s(operand%d), through the method expression handed to %s", what, ri, method, ai, hu.Name()), true), true
+			}
+			return mkOb(c, "TIME.order-mirror", u, what+" result#1", hr, Violated, fmt.Sprintf("%s is computed as operand%d.%s(operand%d) (method expression handed to %s): the three predicates no longer partition pairs of instants in agreement with time-from", what, ri, method, ai, hu.Name()), true), true
+		}
+	}
+	return Obligation{}, false
 }
 
 func returnsOf(body *ast.BlockStmt) []*ast.ReturnStmt {
